@@ -663,6 +663,19 @@ for _p in CORE_CFGS:
     PARTS[_p] = PARTS.get(_p, []) + [core_part]
 PARTS["C04"] = [term_part, sched_part]
 PARTS["C02"] = PARTS["C02"] + [api_part]
+
+
+def bartext_part(prop, tier, seed):
+    from . import fillpart
+    return fillpart.table(prop, tier, seed, "BarText.tla", "BarText.cfg", "BarTextFull.cfg", "TestBarTextCases", "BTXT",
+                          "every stack of filler options (BarFillerOnComplete / OnAbort / ClearOnComplete / ClearOnAbort / a user middleware) up to "
+                          "MaxOpts deep x completed / aborted x number of frames drawn afterwards, enumerated by TLC from BarText.tla; in every frame "
+                          "the filler shows what the specification says for the state the row's own decorator reports",
+                          "filler-text-disagrees-with-BarText.tla",
+                          ["frames are requested one at a time through the manual refresh channel (the interleavings are the business of the scheduled runs)"])
+
+
+PARTS["C03"] = PARTS["C03"] + [bartext_part]
 PARTS["C04"] = PARTS["C04"] + [twins_part]
 PARTS["C10"] = PARTS["C10"] + [twins_part, stress_part]
 PARTS["C11"] = PARTS["C11"] + [stress_part]
